@@ -1536,6 +1536,164 @@ func pipelineStages(repo string) {
 	out.WriteString("def pipelineStages : List (String × List (String × String)) := [\n" + strings.Join(rows, ",\n") + "]\n\n")
 }
 
+// meterLockTable classifies every simple statement of meter/meter.go's progressMeter methods by what it
+// does to the shared state: "lock" / "unlock" / "defer-unlock" of p.lock, "atomic" (touches p.count through
+// sync/atomic only), "access" (mentions any other field of p), "return", "go" (start of the ticker
+// goroutine), "other"; with the fields mentioned and the branch path. The lock-discipline theorem of C17
+// is a decidable property of this table.
+func meterLockTable(repo string) {
+	f := parse(filepath.Join(repo, "meter/meter.go"))
+	var defs []string
+	for _, d := range f.Decls {
+		fd, ok := d.(*ast.FuncDecl)
+		if !ok || fd.Recv == nil || len(fd.Recv.List) != 1 || len(fd.Recv.List[0].Names) != 1 {
+			continue
+		}
+		t := fd.Recv.List[0].Type
+		if st, ok := t.(*ast.StarExpr); ok {
+			t = st.X
+		}
+		if exprName(t) != "progressMeter" {
+			continue
+		}
+		recv := fd.Recv.List[0].Names[0].Name
+		var rows []string
+		counter := 0
+		ext := func(path []string, c string) []string { return append(append([]string{}, path...), c) }
+		add := func(kind string, fields []string, path []string) {
+			var comps []string
+			for _, c := range path {
+				kv := strings.SplitN(c, ":", 2)
+				comps = append(comps, fmt.Sprintf("(%s, %s)", q(kv[0]), q(kv[1])))
+			}
+			var fs []string
+			for _, x := range fields {
+				fs = append(fs, q(x))
+			}
+			rows = append(rows, fmt.Sprintf("(%s, [%s], [%s])", q(kind), strings.Join(fs, ", "), strings.Join(comps, ", ")))
+		}
+		// fields of the receiver mentioned in a node (function literals excluded), and whether p.count
+		// occurs anywhere else than as &p.count inside a call of package atomic
+		mentions := func(n ast.Node) (fields []string, atomicOnly bool) {
+			atomicOnly = true
+			seen := map[string]bool{}
+			var visit func(n ast.Node, inAtomic bool)
+			visit = func(n ast.Node, inAtomic bool) {
+				ast.Inspect(n, func(m ast.Node) bool {
+					if m == nil {
+						return false
+					}
+					if _, ok := m.(*ast.FuncLit); ok {
+						return false
+					}
+					if c, ok := m.(*ast.CallExpr); ok {
+						if sel, ok := c.Fun.(*ast.SelectorExpr); ok && exprName(sel.X) == "atomic" {
+							for _, a := range c.Args {
+								visit(a, true)
+							}
+							return false
+						}
+					}
+					if sel, ok := m.(*ast.SelectorExpr); ok && exprName(sel.X) == recv {
+						if !seen[sel.Sel.Name] {
+							seen[sel.Sel.Name] = true
+							fields = append(fields, sel.Sel.Name)
+						}
+						if sel.Sel.Name == "count" && !inAtomic {
+							atomicOnly = false
+						}
+					}
+					return true
+				})
+			}
+			visit(n, false)
+			return
+		}
+		classify := func(st ast.Stmt, path []string, deferred bool) {
+			text := srcText(st)
+			lockCall := recv + ".lock.Lock()"
+			unlockCall := recv + ".lock.Unlock()"
+			fields, atomicOnly := mentions(st)
+			switch {
+			case text == lockCall:
+				add("lock", nil, path)
+			case text == unlockCall:
+				add("unlock", nil, path)
+			case deferred && text == "defer "+unlockCall:
+				add("defer-unlock", nil, path)
+			default:
+				onlyCount := len(fields) == 1 && fields[0] == "count"
+				switch {
+				case len(fields) == 0:
+					add("other", nil, path)
+				case onlyCount && atomicOnly:
+					add("atomic", fields, path)
+				default:
+					if !atomicOnly {
+						fields = append(fields, "count!") // p.count outside sync/atomic
+					}
+					add("access", fields, path)
+				}
+			}
+		}
+		var walk func(stmts []ast.Stmt, path []string)
+		walk = func(stmts []ast.Stmt, path []string) {
+			for _, st := range stmts {
+				switch t := st.(type) {
+				case *ast.ReturnStmt:
+					fields, _ := mentions(t)
+					if len(fields) > 0 {
+						add("access", fields, path)
+					}
+					add("return", nil, path)
+				case *ast.IfStmt:
+					counter++
+					k := counter
+					fields, atomicOnly := mentions(t.Cond)
+					if len(fields) > 0 {
+						if !atomicOnly {
+							fields = append(fields, "count!")
+						}
+						add("access", fields, path)
+					}
+					walk(t.Body.List, ext(path, fmt.Sprintf("i%d:t", k)))
+					if eb, ok := t.Else.(*ast.BlockStmt); ok {
+						walk(eb.List, ext(path, fmt.Sprintf("i%d:e", k)))
+					} else if t.Else != nil {
+						die(t.Pos(), "meterLockTable: else-if")
+					}
+				case *ast.ForStmt:
+					counter++
+					if t.Init != nil || t.Cond != nil || t.Post != nil {
+						die(t.Pos(), "meterLockTable: loop with a header")
+					}
+					walk(t.Body.List, ext(path, fmt.Sprintf("f%d:loop", counter)))
+				case *ast.GoStmt:
+					fl, ok := t.Call.Fun.(*ast.FuncLit)
+					if !ok {
+						die(t.Pos(), "meterLockTable: go of a non-literal")
+					}
+					counter++
+					add("go", nil, path)
+					walk(fl.Body.List, ext(path, fmt.Sprintf("g%d:go", counter)))
+				case *ast.DeferStmt:
+					classify(st, path, true)
+				case *ast.BlockStmt:
+					walk(t.List, path)
+				case *ast.ExprStmt, *ast.AssignStmt, *ast.IncDecStmt, *ast.DeclStmt, *ast.SendStmt:
+					classify(st, path, false)
+				default:
+					die(st.Pos(), "meterLockTable: unsupported statement %T", st)
+				}
+			}
+		}
+		walk(fd.Body.List, nil)
+		defs = append(defs, fmt.Sprintf("  (%s, [\n    %s])", q(fd.Name.Name), strings.Join(rows, ",\n    ")))
+	}
+	out.WriteString("/-- progressMeter's methods: what each statement does to the shared state (kind, fields of the receiver it mentions, branch path) -/\n")
+	out.WriteString("def meterLockTable : List (String × List (String × List String × List (String × String))) := [\n" + strings.Join(defs, ",\n") + "]\n\n")
+}
+
 // graphFlows: the statement lists of the aggregator core of sizes/graph.go, one per function
 func graphFlows(repo string) {
 	fns := [][2]string{{"Graph", "RegisterBlob"}, {"Graph", "RegisterTree"}, {"treeRecord", "initialize"}, {"treeRecord", "maybeFinalize"},
@@ -1576,6 +1734,7 @@ func main() {
 	resolverSites(repo)
 	mainFlow(repo)
 	pipelineStages(repo)
+	meterLockTable(repo)
 	graphFlows(repo)
 	otherFlows(repo)
 	funcFlow(repo, "sizes/graph.go", "", "ScanRepositoryUsingGraph", "scanFlow", "sizes.ScanRepositoryUsingGraph, EVERY statement in source order: (kind, text, branch path)")
